@@ -107,7 +107,9 @@ def judge(ctx, status: str) -> list[dict]:
                         return ok_ids and all(a == b or a.rstrip("s") == b.rstrip("s") for a, b in lits) and any(a != b for a, b in lits)
 
                     reason = (
-                        "no_delete_in_tree" if not dels
+                        # 404 and 5xx answers are never a use-after-free, whatever was deleted before
+                        "exempt_status" if c.status == 404 or c.status >= 500
+                        else "no_delete_in_tree" if not dels
                         else "delete_did_not_succeed" if same_res
                         else "deleted_resource_is_unrelated" if any(differs_only_in_collection_name(x) for x in dels)
                         else "deleted_resource_has_other_identifier"
